@@ -8,27 +8,31 @@ Go: `lexer.IsKeyword` (parser/seqql.go:96-101: `!TokenQuoted && strings.EqualFol
 * C12 (Model/SeqQLFilter.lean): a token `LTok` carries `kw : KW`, the answer of `EqualFold` for the keywords the parser asks
   about - an ORACLE (the harness supplies Go's own answer) - `kwIn`, `skipExcept`, `fieldList`, `pipeFields`.
   (The translated `c12_t_IsKeyword_quoted` in Props/C12T states the quoted-token rule for the translated code: cited only.)
-* C20 (Model/Fields.lean): `Tok` = text + quoted, `isKeyword` = not quoted and `asciiLower text == kw` (ASCII folding
-  written out), `fieldListGo`, `parsePipeFields`.
-Both now model `parsePipeFields`/`parseFieldList` (wave 1 saw only `firstFieldsPipe`; Fields.lean gained the header parser since).
+* C20 (Model/Fields.lean, REPAIRED after wave 3): `Tok` = text + quoted + space, `isKeyword` = not quoted and
+  `foldText text == kw` (`strings.EqualFold` restricted to what can meet an ASCII keyword: A-Z, U+017F, U+212A), `isComposite`,
+  `joinComposite`, `compositeToken`, `fieldListGo`, `parsePipeFields` - now the same loop structure as C12's.
 
-FINDINGS (C20's second model disagrees with C12's and with Go; Go answers observed with the real parser in a scratch copy):
-1. `| fields a-b`: Go and C12 join adjacent composite tokens: one field `a-b`; C20 `parsePipeFields` yields three names.
-2. `| fields $`: Go and C12 reject a non-composite symbol ("unexpected symbol"); C20 accepts the name `$`.
-3. `| fieldſ a` (U+017F): `strings.EqualFold("fieldſ", "fields") = true`, Go parses a fields pipe (so does C12, whose oracle is
-   Go's answer); C20's ASCII folding rejects the keyword.  Only `s`/`k` have non-ASCII fold partners (ſ, K), so this
-   concerns `fields` only (not `except`, `|`, `,`).
-All three are reachable query texts; what C20 proves about `parsePipeFields` (`parsePipeFields_case`: the parse depends on
-the keyword tokens only through quoting and ASCII-lowered text) is unaffected, but the function is not `parsePipeFields`
-of Go outside "every name is one space-separated composite token, ASCII keywords".
+HISTORY: wave 3 found three reachable disagreements of C20's first header parser with C12 and Go (`| fields a-b` joined into one
+name by Go/C12 but three names in C20; `| fields $` rejected by Go/C12 but accepted by C20; `| fieldſ a` a keyword for Go's
+`EqualFold` but not for C20's ASCII folding).  The model was repaired; the three `*_witness` theorems below now state AGREEMENT of
+both models on those very inputs (both sides computed by `decide`; names kept for the audit trail), and wave 4 adds the general
+equality `cons_kw_pipeFields_eq_parsePipeFields` on an explicit domain.
+RESIDUAL DISAGREEMENT (documented model restriction of C20, reachable text): a single non-ASCII NON-letter rune such as `€`:
+Go / C12 (`isTokenRune` false) reject `| fields €` ("unexpected symbol"), C20's `isTokenChar` takes every non-ASCII character as a
+letter and accepts the name: `cons_kw_nonascii_symbol_witness`.
 -/
 namespace SV.Consistency
 open SV.Parser
 
-/-- a C12 lexer token read as a C20 token: the text as characters (one per code point), the quoting flag -/
-def kwTokOfLTok (t : LTok) : SV.Fields.Tok := ⟨t.rs.map fun r => Char.ofNat r.cp, t.quoted, t.space⟩
+/-- a rune as a character; the lexer's wildcard rune U+E000 is the `*` the user typed (Go replaces it back in field names:
+`parseCompositeTokenReplaceWildcards`, C12 `nameBytes`) -/
+def kwConvChar (r : Rn) : Char := if r.cp = wildcardCp then '*' else Char.ofNat r.cp
 
-/-- what it means for C12's `EqualFold` oracle to be ASCII folding on a token, for the four keywords of the pipe header -/
+/-- a C12 lexer token read as a C20 token: the text as characters (one per rune), the quoting and space flags -/
+def kwTokOfLTok (t : LTok) : SV.Fields.Tok := ⟨t.rs.map kwConvChar, t.quoted, t.space⟩
+
+/-- what it means for C12's `EqualFold` oracle to be C20's written-out folding (`foldText`: ASCII upper case, U+017F, U+212A)
+on a token, for the four keywords of the pipe header -/
 structure KwAsciiOK (t : LTok) : Prop where
   fields : (t.kw = .fields) ↔ SV.Fields.foldText (kwTokOfLTok t).text = "fields".toList
   except : (t.kw = .except) ↔ SV.Fields.foldText (kwTokOfLTok t).text = "except".toList
@@ -36,8 +40,8 @@ structure KwAsciiOK (t : LTok) : Prop where
   comma : (t.kw = .comma) ↔ SV.Fields.foldText (kwTokOfLTok t).text = [',']
 
 /-- **`IsKeyword`: same strings, same case rule, same quoting rule** - C12 `kwIn t [k]` = C20 `isKeyword (conv t) k` for
-`fields`, `except`, `|`, `,`, on every token where the `EqualFold` oracle is ASCII folding (`KwAsciiOK`; true for every
-token without U+017F / U+212A).  A quoted token is never a keyword on either side. -/
+`fields`, `except`, `|`, `,`, on every token where the `EqualFold` oracle is C20's `foldText` (`KwAsciiOK`; since the repair
+this includes U+017F / U+212A).  A quoted token is never a keyword on either side. -/
 theorem cons_kw_kwIn_eq_isKeyword (t : LTok) (h : KwAsciiOK t) :
     kwIn t [.fields] = SV.Fields.isKeyword (kwTokOfLTok t) "fields".toList ∧
     kwIn t [.except] = SV.Fields.isKeyword (kwTokOfLTok t) "except".toList ∧
@@ -108,7 +112,7 @@ theorem cons_kw_fieldList_symbol_name_witness :
     SV.Fields.parsePipeFields [⟨"fields".toList, false, true⟩, ⟨['$'], false, true⟩] = none := by decide
 
 /-- 3. `fieldſ a` (long s, U+017F): Go's `EqualFold` says keyword `fields` (C12: oracle answer `.fields` -> a pipe);
-C20's first version (ASCII folding) said no keyword -> parse error; now `foldChar` maps U+017F to `s`.  (`KwAsciiOK` fails for this token: it is exactly the excluded case.) -/
+C20's first version (ASCII folding) said no keyword -> parse error; now `foldChar` maps U+017F to `s` (and `KwAsciiOK` holds for this token). -/
 theorem cons_kw_isKeyword_unicode_fold_witness :
     let a : Rn := ⟨[97], 97, true, false, false, 97, false⟩
     let t : LTok := ⟨[⟨[0xC5, 0xBF], 0x17F, true, false, false, 0x17F, false⟩], false, true, .fields⟩
@@ -128,12 +132,260 @@ theorem cons_kw_fieldList_simple_agree_example :
     SV.Fields.parsePipeFields [⟨"fields".toList, false, true⟩, ⟨"except".toList, false, true⟩, ⟨['a'], false, true⟩, ⟨[','], false, false⟩, ⟨['b'], true, true⟩]
       = some (true, [['a'], ['b']], []) := by decide
 
-/-! OPEN (time box): the general agreement on the simple domain.  Intended statement:
-`∀ toks, (∀ t ∈ toks, KwAsciiOK t ∧ t.kw ≠ .empty) → (every token that is neither `|` nor `,` satisfies isComposite) →
- (every name token is followed by a token with `space = true` or a non-composite one) →
- (pipeFields toks).toOption.map (fun (p, r) => (p.except, p.fields.map (·.map Char.ofNat), r.map kwTokOfLTok))
-   = SV.Fields.parsePipeFields (toks.map kwTokOfLTok)`  (names ASCII, so `nameBytes` = code points).
-Needs a two-point simulation (loop head / after a name) between `fieldList` (fuel, acc, trailing) and `fieldListGo`
-(afterName, tr, reversed acc). -/
+/-! ## the general equality (wave 4): `Parser.pipeFields` = `Fields.parsePipeFields` -/
+
+/-- the domain: what the lexer guarantees about a token of the stream (`noEmpty`, `emptyQuoted`: the end token is not in
+the list, an empty token is a quoted one), and that C12's rune oracles say what C20's `Char` predicates say
+(`keys`: `EqualFold`; `cls`: `isTokenRune` on the first rune, code point = character; `len`: UTF-8 byte length of the rest) -/
+structure KwTokOK (t : LTok) : Prop where
+  noEmpty : t.kw ≠ .empty
+  emptyQuoted : t.rs = [] → t.quoted = true
+  keys : KwAsciiOK t
+  cls : ∀ r rest, t.rs = r :: rest → r.cp ≠ wildcardCp →
+    isTokenRune r = SV.Fields.isTokenChar (Char.ofNat r.cp) ∧ (Char.ofNat r.cp).toNat = r.cp
+  len : ∀ r rest, t.rs = r :: rest → decide (byteLen rest > 1) = decide (SV.Fields.utf8Len (rest.map kwConvChar) > 1)
+
+theorem kw_isComposite (t : LTok) (h : KwTokOK t) : isComposite t = SV.Fields.isComposite (kwTokOfLTok t) := by
+  unfold isComposite SV.Fields.isComposite kwTokOfLTok
+  simp only [h.noEmpty, if_false]
+  cases hrs : t.rs with
+  | nil => simp [h.emptyQuoted hrs]
+  | cons r rest =>
+    simp only [List.map_cons]
+    have hl := h.len r rest hrs
+    cases hq : t.quoted
+    · by_cases hw : r.cp = wildcardCp
+      · have : kwConvChar r = '*' := by simp [kwConvChar, hw]
+        simp [this, hw]
+      · obtain ⟨h1, h2⟩ := h.cls r rest hrs hw
+        have hc : kwConvChar r = Char.ofNat r.cp := by simp [kwConvChar, hw]
+        have e1 : (Char.ofNat r.cp == '-') = decide (r.cp = 45) := by
+          by_cases h45 : r.cp = 45
+          · simp [h45]
+          · have : Char.ofNat r.cp ≠ '-' := fun e => h45 (by rw [← h2, e]; rfl)
+            simp [h45, this]
+        have e2 : (Char.ofNat r.cp == '*') = decide (r.cp = 42) := by
+          by_cases h42 : r.cp = 42
+          · simp [h42]
+          · have : Char.ofNat r.cp ≠ '*' := fun e => h42 (by rw [← h2, e]; rfl)
+            simp [h42, this]
+        rw [hc, e1, e2, ← h1, ← hl]
+        by_cases hb : byteLen rest > 1
+        · simp [hb]
+        · simp [hb, hw]
+    · simp
+
+theorem kw_joinComposite_mem (acc : List Rn) (ts : List LTok) : ∀ t, t ∈ (joinComposite acc ts).2 → t ∈ ts := by
+  induction ts generalizing acc with
+  | nil => intro t ht; simp [joinComposite] at ht
+  | cons x xs ih =>
+    intro t ht
+    unfold joinComposite at ht
+    split at ht
+    · exact List.mem_cons_of_mem _ (ih _ t ht)
+    · exact ht
+
+theorem kw_joinComposite (acc : List Rn) (ts : List LTok) (h : ∀ t, t ∈ ts → KwTokOK t) :
+    SV.Fields.joinComposite (acc.map kwConvChar) (ts.map kwTokOfLTok) =
+      ((joinComposite acc ts).1.map kwConvChar, (joinComposite acc ts).2.map kwTokOfLTok) := by
+  induction ts generalizing acc with
+  | nil => rfl
+  | cons x xs ih =>
+    have hx := kw_isComposite x (h x (by simp))
+    have ih' := fun a => ih a (fun t ht => h t (by simp [ht]))
+    rw [List.map_cons, SV.Fields.joinComposite, joinComposite, ← hx]
+    have hs : (kwTokOfLTok x).space = x.space := rfl
+    rw [hs]
+    by_cases hc : (!x.space && isComposite x) = true
+    · rw [if_pos hc, if_pos hc]
+      have : acc.map kwConvChar ++ (kwTokOfLTok x).text = (acc ++ x.rs).map kwConvChar := by simp [kwTokOfLTok]
+      rw [this, ih']
+    · rw [if_neg hc, if_neg hc]; rfl
+
+theorem kw_compositeToken (ts : List LTok) (h : ∀ t, t ∈ ts → KwTokOK t) :
+    (compositeToken ts = .err ∧ SV.Fields.compositeToken (ts.map kwTokOfLTok) = none) ∨
+    (∃ p, compositeToken ts = .ok p ∧ (∀ t, t ∈ p.2 → t ∈ ts) ∧
+      SV.Fields.compositeToken (ts.map kwTokOfLTok) = some (p.1.map kwConvChar, p.2.map kwTokOfLTok)) := by
+  cases ts with
+  | nil => left; exact ⟨rfl, rfl⟩
+  | cons t r =>
+    have ht := h t (by simp)
+    have hc := kw_isComposite t ht
+    rw [List.map_cons]
+    unfold compositeToken SV.Fields.compositeToken
+    simp only [ht.noEmpty, if_false, ← hc]
+    by_cases hi : isComposite t = true
+    · right
+      refine ⟨joinComposite t.rs r, by simp [hi], fun x hx => List.mem_cons_of_mem _ (kw_joinComposite_mem _ _ x hx), ?_⟩
+      simp only [hi, if_true]
+      have := kw_joinComposite t.rs r (fun x hx => h x (by simp [hx]))
+      simpa [kwTokOfLTok] using congrArg some this
+    · left
+      simp [hi]
+
+/-- results of the two list parsers correspond: same names (as runes: bytes through `nameBytes` on the C12 side, characters
+through `kwConvChar` on the C20 side), same remaining tokens; or both fail -/
+def KwRel (res : PRes (List (List Nat) × List LTok)) (opt : Option (List (List Char) × List SV.Fields.Tok)) : Prop :=
+  (∃ (names : List (List Rn)) (rest : List LTok), res = .ok (names.map nameBytes, rest) ∧
+      opt = some (names.map (fun n => n.map kwConvChar), rest.map kwTokOfLTok)) ∨
+  ((res = .err ∨ res = .oof) ∧ opt = none)
+
+theorem kw_fieldList_sim : ∀ (f : Nat) (names : List (List Rn)) (tr : Bool) (toks : List LTok),
+    (∀ t, t ∈ toks → KwTokOK t) →
+    KwRel (fieldList f (names.map nameBytes) tr toks)
+      (SV.Fields.fieldListGo f (toks.map kwTokOfLTok) tr ((names.map fun n => n.map kwConvChar).reverse)) := by
+  intro f
+  induction f with
+  | zero => intro names tr toks _; right; exact ⟨Or.inr rfl, rfl⟩
+  | succ f ih =>
+    intro names tr toks hok
+    have hemp : (names.map nameBytes).isEmpty = ((names.map fun n => n.map kwConvChar).reverse).isEmpty := by
+      cases names <;> simp
+    rw [fieldList, SV.Fields.fieldListGo.eq_def]
+    simp only []
+    cases toks with
+    | nil =>
+      simp only [atStop, if_true, List.map_nil]
+      by_cases htr : tr = true
+      · right; simp [htr]
+      · by_cases he : (names.map nameBytes).isEmpty = true
+        · right; rw [← hemp]; simp [htr, he]
+        · left
+          refine ⟨names, [], ?_, ?_⟩
+          · simp [htr, he]
+          · rw [← hemp]; simp [htr, he]
+    | cons t rest =>
+      have ht := hok t (by simp)
+      have hp : atStop (t :: rest) [.pipe, .empty] = kwIn t [.pipe] := by
+        simp only [atStop, kwIn]
+        cases t.quoted
+        · simp [ht.noEmpty]
+        · simp
+      have hp2 := (cons_kw_kwIn_eq_isKeyword t ht.keys).2.2.1
+      rw [hp, List.map_cons]
+      simp only []
+      rw [← hp2]
+      by_cases hpipe : kwIn t [.pipe] = true
+      · simp only [hpipe, if_true]
+        by_cases htr : tr = true
+        · right; simp [htr]
+        · by_cases he : (names.map nameBytes).isEmpty = true
+          · right; rw [← hemp]; simp [htr, he]
+          · left
+            refine ⟨names, t :: rest, ?_, ?_⟩
+            · simp [htr, he]
+            · rw [← hemp]; simp [htr, he]
+      · simp only [hpipe, Bool.false_eq_true, if_false]
+        rcases kw_compositeToken (t :: rest) hok with ⟨h1, h2⟩ | ⟨p, h1, hmem, h2⟩
+        · right
+          rw [h1]
+          rw [List.map_cons] at h2
+          rw [h2]
+          exact ⟨Or.inl rfl, rfl⟩
+        · rw [h1]
+          rw [List.map_cons] at h2
+          rw [h2]
+          simp only [PRes.bind_ok]
+          have hacc : names.map nameBytes ++ [nameBytes p.1] = (names ++ [p.1]).map nameBytes := by simp
+          have hacc2 : p.1.map kwConvChar :: (names.map fun n => n.map kwConvChar).reverse
+              = ((names ++ [p.1]).map fun n => n.map kwConvChar).reverse := by simp
+          rw [hacc, hacc2]
+          cases hp2' : p.2 with
+          | nil =>
+            simp only [List.map_nil]
+            exact ih (names ++ [p.1]) false [] (fun _ hx => by cases hx)
+          | cons c r' =>
+            have hcok : KwTokOK c := hok c (hmem c (by rw [hp2']; simp))
+            have hcm := (cons_kw_kwIn_eq_isKeyword c hcok.keys).2.2.2
+            simp only [List.map_cons, ← hcm]
+            have hrok : ∀ x, x ∈ c :: r' → KwTokOK x := fun x hx => hok x (hmem x (by rw [hp2']; exact hx))
+            by_cases hcomma : kwIn c [.comma] = true
+            · simp only [hcomma, if_true]
+              exact ih (names ++ [p.1]) true r' (fun x hx => hrok x (by simp [hx]))
+            · simp only [hcomma, Bool.false_eq_true, if_false]
+              have := ih (names ++ [p.1]) false (c :: r') hrok
+              rw [List.map_cons] at this
+              exact this
+
+/-- **C12 `Parser.pipeFields` = C20 `Fields.parsePipeFields`** (Go: `parsePipeFields` + `parseFieldList` +
+`parseCompositeTokenReplaceWildcards`) on every token list of the domain `KwTokOK` (lexer guarantees + agreement of C12's
+rune oracles with C20's character predicates), at least two tokens long (`fields` and something).  Token conversion
+`kwTokOfLTok`; names correspond rune for rune (C12 bytes `nameBytes n`, C20 characters `n.map kwConvChar`).
+Either both reject, or both return the same `except` flag, the same names in order and the same remaining tokens. -/
+theorem cons_kw_pipeFields_eq_parsePipeFields (f e : LTok) (rest : List LTok)
+    (hok : ∀ t, t ∈ f :: e :: rest → KwTokOK t) :
+    (pipeFields (f :: e :: rest) = .err ∧ SV.Fields.parsePipeFields ((f :: e :: rest).map kwTokOfLTok) = none) ∨
+    (∃ (ex : Bool) (names : List (List Rn)) (rem : List LTok),
+      pipeFields (f :: e :: rest) = .ok (⟨ex, names.map nameBytes⟩, rem) ∧
+      SV.Fields.parsePipeFields ((f :: e :: rest).map kwTokOfLTok) =
+        some (ex, names.map (fun n => n.map kwConvChar), rem.map kwTokOfLTok)) := by
+  have hf := hok f (by simp)
+  have he := hok e (by simp)
+  have hkf := (cons_kw_kwIn_eq_isKeyword f hf.keys).1
+  have hke := (cons_kw_kwIn_eq_isKeyword e he.keys).2.1
+  have hnoof := (pipeFields_spec (f :: e :: rest)).1
+  by_cases hfields : kwIn f [.fields] = true
+  · have hfields' : SV.Fields.isKeyword (kwTokOfLTok f) "fields".toList = true := by rw [← hkf]; exact hfields
+    by_cases hex : kwIn e [.except] = true
+    · have hex' : SV.Fields.isKeyword (kwTokOfLTok e) "except".toList = true := by rw [← hke]; exact hex
+      have hsk : skipExcept (e :: rest) = (true, rest) := by simp [skipExcept, hex]
+      have sim := kw_fieldList_sim (rest.length + 1) [] false rest (fun t ht => hok t (by simp [ht]))
+      have hP : pipeFields (f :: e :: rest) = (fieldList (rest.length + 1) [] false rest).bind fun p => .ok (⟨true, p.1⟩, p.2) := by
+        simp [pipeFields, hfields, hsk]
+      have hF : SV.Fields.parsePipeFields ((f :: e :: rest).map kwTokOfLTok) =
+          (SV.Fields.fieldListGo (rest.length + 1) (rest.map kwTokOfLTok) false []).map fun r => (true, r.1, r.2) := by
+        simp only [List.map_cons, SV.Fields.parsePipeFields, hfields', hex', if_true, List.length_map]
+      simp only [List.map_nil, List.reverse_nil] at sim
+      rcases sim with ⟨names, rem, h1, h2⟩ | ⟨h1, h2⟩
+      · right; exact ⟨true, names, rem, by rw [hP, h1]; rfl, by rw [hF, h2]; rfl⟩
+      · left
+        refine ⟨?_, by rw [hF, h2]; rfl⟩
+        rcases h1 with h1 | h1
+        · rw [hP, h1]; rfl
+        · exact absurd (by rw [hP, h1]; rfl) hnoof
+    · have hex' : SV.Fields.isKeyword (kwTokOfLTok e) "except".toList = false := by
+        rw [← hke]; simpa using hex
+      have hsk : skipExcept (e :: rest) = (false, e :: rest) := by simp [skipExcept, hex]
+      have sim := kw_fieldList_sim ((e :: rest).length + 1) [] false (e :: rest) (fun t ht => hok t (by simp [ht]))
+      have hP : pipeFields (f :: e :: rest) = (fieldList ((e :: rest).length + 1) [] false (e :: rest)).bind fun p => .ok (⟨false, p.1⟩, p.2) := by
+        simp [pipeFields, hfields, hsk]
+      have hF : SV.Fields.parsePipeFields ((f :: e :: rest).map kwTokOfLTok) =
+          (SV.Fields.fieldListGo ((e :: rest).length + 1) ((e :: rest).map kwTokOfLTok) false []).map fun r => (false, r.1, r.2) := by
+        simp only [List.map_cons, SV.Fields.parsePipeFields, hfields', hex', if_true, List.length_cons, List.length_map]
+        simp
+      simp only [List.map_nil, List.reverse_nil] at sim
+      rcases sim with ⟨names, rem, h1, h2⟩ | ⟨h1, h2⟩
+      · right; exact ⟨false, names, rem, by rw [hP, h1]; rfl, by rw [hF, h2]; rfl⟩
+      · left
+        refine ⟨?_, by rw [hF, h2]; rfl⟩
+        rcases h1 with h1 | h1
+        · rw [hP, h1]; rfl
+        · exact absurd (by rw [hP, h1]; rfl) hnoof
+  · left
+    have hfields' : SV.Fields.isKeyword (kwTokOfLTok f) "fields".toList = false := by rw [← hkf]; simpa using hfields
+    have hn' : SV.Fields.isKeyword (kwTokOfLTok f) ['f', 'i', 'e', 'l', 'd', 's'] = false := hfields'
+    exact ⟨by simp [pipeFields, hfields], by simp [SV.Fields.parsePipeFields, hn']⟩
+
+/-- non-vacuity of `KwTokOK`: the ASCII letter token `a` (letter flag set, one byte) -/
+example : KwTokOK ⟨[⟨[97], 97, true, false, false, 97, false⟩], false, true, .none⟩ := by
+  refine ⟨by decide, by decide, ⟨by decide, by decide, by decide, by decide⟩, ?_, ?_⟩
+  · intro r rest h _
+    simp only [List.cons.injEq] at h
+    obtain ⟨rfl, rfl⟩ := h
+    decide
+  · intro r rest h
+    simp only [List.cons.injEq] at h
+    obtain ⟨rfl, rfl⟩ := h
+    decide
+
+/-- **residual disagreement** (documented restriction of the repaired C20 model; reachable text `| fields €`): a single
+non-ASCII rune that is no letter/digit is not a composite token for Go / C12 (`isTokenRune` false -> "unexpected symbol"),
+while C20's `isTokenChar` takes every non-ASCII character as a letter and accepts the name.  `KwTokOK.cls` fails for it. -/
+theorem cons_kw_nonascii_symbol_witness :
+    let eur : Rn := ⟨[0xE2, 0x82, 0xAC], 0x20AC, false, false, false, 0x20AC, false⟩
+    let fl : LTok := ⟨[⟨[102], 102, true, false, false, 102, false⟩], false, true, .fields⟩
+    pipeFields [fl, ⟨[eur], false, true, .none⟩] = .err ∧
+    SV.Fields.parsePipeFields [⟨"fields".toList, false, true⟩, ⟨[Char.ofNat 0x20AC], false, true⟩]
+      = some (false, [[Char.ofNat 0x20AC]], []) := by decide
 
 end SV.Consistency
